@@ -282,7 +282,7 @@ theorem walkLoop_no_idle (e : Env) (wf : WF e) (t r : Nat) (fuel : Nat) (σ : St
           rw [hst]
           exact bookResources_single_iff e σ t w r ha hsel hnone
         · exact ih (scheduleSlot e σ t w).1 (advance true w (scheduleSlot e σ t w).2.1) (w.cur :: vis) hs.1
-            ⟨hw1.off_nonneg, hw1.off_le, hw1.done_le⟩
+            (walkOk_advance e t wf _ _ _ hw1)
             (selectedOf_some e _ t _ [r] hsel') hlt' (hsf.1 hc) hok p hp
     · have hc' : (scheduleSlot e σ t w).2.2 = false := by simpa using hc
       simp only [hc', Bool.not_false, if_true] at hok ⊢
